@@ -593,8 +593,12 @@ func faultKind(s script, limitMs int) (string, error) {
 	case s.UseGarb:
 		if len(s.Garbage) > 0 {
 			switch s.Garbage[0] {
-			case 0, 2, 3, 4, 6, 8, 10, 11, 12, 13, 14, 15:
-				return "", harness("garbage starts with a valid thrift type byte: it may decode")
+			case 0:
+				return "", harness("garbage starts with a STOP byte: it is an empty response")
+			case 2, 3, 4, 6, 8, 10, 11, 12, 13, 14, 15:
+				if len(s.Garbage) >= 3 { // shorter: an incomplete field header, certainly malformed
+					return "", harness("garbage starts with a valid thrift field header: it may decode")
+				}
 			}
 		}
 		if len(s.Garbage) == 0 {
